@@ -3,6 +3,7 @@
 package props
 
 import (
+	"strconv"
 	"errors"
 	"fmt"
 	"io"
@@ -33,7 +34,7 @@ func init() {
 				Rule: "case = one input byte string. Exhaustive: every string of length <= 7 (<= 9 thorough) over 7 bytes: one representative per tokenizer class (blank, newline, backslash, single quote, double quote) and two 'other' bytes; plus a position sweep (one byte of every value at every offset of otherwise plain text of every length 1..40 and around 64/128; pairs of special bytes at every two offsets), every single byte 0..255 in five contexts (classification of all byte values), inputs of 4090..65537 bytes whose tokens and quoted spans cross buffer boundaries, and random inputs up to 200 bytes over a wider alphabet (tab, CR, VT, FF, NBSP, $, `, #, non-ASCII). " +
 					"Per input: Split's fields and completeness flag vs the reference; Scanner over a one-byte-at-a-time reader and over fixed and random fragmentations, including readers that return the last bytes together with io.EOF and readers that sometimes return (0, nil) (Next/Text, Complete after the last token, Next stays false and Err stays io.EOF afterwards); Each with early stop; Scanner.Split; Rest called after the k-th token for every k must yield exactly input[offset_k:] (also when Rest is asked for twice, a few bytes read through the first reader and the remainder through the second) and Next must then stay false; every rune U+0080..U+FFFF (and a stride of the other planes) at the start of the input and in every quoting context, plus byte-order marks, '#!', CR LF and escape sequences; a reader that fails with a non-EOF error must surface through Err; remainders from Rest kept unread while their scanners are dropped, garbage collections are forced and new scanners are created and used, then read and compared. Complete inputs without other metacharacters and without unquoted newlines are also split by dash and 'bash +B' (length <= 6 exhaustive). Reset reuse and the pooled Split run concurrently under -race. " +
 					"distinct = the input (enumerated); non-trivial = it contains a quote or backslash",
-				Required:     []string{"inputs", "state_class_pairs_covered_of_42", "scanner_fragmentations", "rest_calls", "shell_inputs_dash", "shell_inputs_bash", "incomplete_inputs", "all_byte_values", "concurrent_splits", "long_inputs", "rest_after_reset", "rest_asked_twice", "rune_sweep_inputs", "position_sweep_inputs", "rest_readers_kept_across_gc", "reset_after_rest", "reset_onto_own_rest"},
+				Required:     []string{"inputs", "state_class_pairs_covered_of_42", "scanner_fragmentations", "rest_calls", "shell_inputs_dash", "shell_inputs_bash", "incomplete_inputs", "all_byte_values", "concurrent_splits", "long_inputs", "rest_after_reset", "rest_asked_twice", "rune_sweep_inputs", "position_sweep_inputs", "rest_readers_kept_across_gc", "reset_after_rest", "reset_onto_own_rest", "huge_inputs_one_byte_reads"},
 				Exhaustive:   true,
 				Assumptions:  []string{"reference tokenizer written from XCU 2.2 with the package's documented deviation: inside double quotes a backslash escapes only the double quote, backslash and newline; $ and ` are ordinary bytes", "dash and bash (+B, LC_ALL=C) as installed"},
 				CoverPkgs:    []string{"github.com/creachadair/mds/shell"},
@@ -653,6 +654,63 @@ func runC16(c *fw.Ctx) {
 		c.Add("inputs", n)
 		c.Evals(n)
 		c.SeenEnum(n)
+	}
+	// huge inputs delivered one byte per Read: a single token, a single run of
+	// blanks, a single quoted span and ten million short tokens, 12 MiB each (3 MiB
+	// in the 32-bit build): whatever the scanner does per fragment or per token
+	// is multiplied by millions
+	if !light && c.Flavour != "cover" && c.Block < 4 && c.Begin(idx+597000+c.Block) {
+		n := 12 << 20
+		if strconv.IntSize == 32 {
+			n = 3 << 20
+		}
+		var in string
+		var want []string
+		switch c.Block {
+		case 0:
+			in = strings.Repeat("x", n)
+			want = []string{in}
+		case 1:
+			in = strings.Repeat(" ", n) + "tail"
+			want = []string{"tail"}
+		case 2:
+			body := strings.Repeat("a b\t", n/4)
+			in = "'" + body + "' z"
+			want = []string{body, "z"}
+		default:
+			in = strings.Repeat("a ", n/2)
+			want = nil // n/2 tokens "a": counted below
+		}
+		c.Call("shell.Scanner over %d bytes read one byte at a time (shape %d)", len(in), c.Block)
+		ok, pv, stack := fw.Try(func() {
+			sc := shell.NewScanner(&chunkReader{data: in, sizes: []int{1}})
+			cnt, bad := 0, ""
+			for sc.Next() {
+				t := sc.Text()
+				if want != nil {
+					if cnt >= len(want) || t != want[cnt] {
+						bad = fmt.Sprintf("token %d has %d bytes, want %d tokens with %d bytes first", cnt, len(t), len(want), len(want[0]))
+						break
+					}
+				} else if t != "a" {
+					bad = fmt.Sprintf("token %d is %q, want \"a\"", cnt, t)
+					break
+				}
+				cnt++
+			}
+			wantCnt := len(want)
+			if want == nil {
+				wantCnt = n / 2
+			}
+			if bad != "" || cnt != wantCnt || !sc.Complete() || sc.Err() != io.EOF {
+				c.Fail(map[string]any{"input": fmt.Sprintf("%d bytes, shape %d (0 one token, 1 blanks then a token, 2 one quoted span, 3 many one-byte tokens)", len(in), c.Block), "reader": "one byte per Read"}, "Scanner yields %d tokens (want %d), complete=%v err=%v %s", cnt, wantCnt, sc.Complete(), sc.Err(), bad)
+			}
+		})
+		if !ok {
+			c.FailKind("panic", map[string]any{"input_bytes": len(in), "shape": c.Block}, "panic: %v\n%s", pv, stack)
+		}
+		c.Add("huge_inputs_one_byte_reads", 1)
+		c.Add("inputs", 1)
 	}
 	// long inputs: tokens and quoted spans that cross buffer boundaries (4096, 8192, 65536)
 	if c.Block < 8 && c.Begin(idx+600000+c.Block) {
